@@ -1,13 +1,13 @@
 /-!
-`lib/util/src/mempool.c` (216 lines; compiled in /repo's DEFAULT configuration, the allocator under `rbtree.c`): pools of
+`lib/util/src/mempool.c` AS REPAIRED by `fixes/C19-mempool-latent.patch` (the code before it: `createOld`, `createPoolOld`,
+`shiftIntOld`; 222 lines; compiled in /repo's DEFAULT configuration, the allocator under `rbtree.c`): pools of
 fixed-size objects in `mmap`ed blocks of `DEF_POOL_SIZE` bytes, each block = `pool_t` header | allocation bitmap
 (`bitmap_count` words of `unsigned int`) | padding | `32 * bitmap_count` objects of `obj_size` bytes.
 
 One Lean function per C function / loop:
 * `poolSizeFromBitmapCount` — `pool_size_from_bitmap_count` (mempool.c:44-61), `size_t` arithmetic (wrapping, `w64`);
 * `searchCount` / `create`  — `mem_pool_create` (98-122): alignment to `MEM_ALIGN`, the `for (;;)` search, `--count`;
-* `createPool`              — `create_pool` (63-96) given the address `mmap` returned (the padding depends on the ABSOLUTE
-                              address: `((uintptr_t)ptr) % mem->obj_size`);
+* `createPool`              — `create_pool` (63-96) given the address `mmap` returned (padding by the offset inside the block);
 * `scanWords`, `scanBits`   — the two scan loops of `mem_pool_allocate` (160-163, 170-173);
 * `takeSlot`                — lines 160-187 for one block `it` (`none` = one of the two `it->obj_free = 0; goto retry_pool`);
 * `walk`                    — the `for (it = mem->pool_list; …)` loop 146-149 fused with what is then done to `it`;
@@ -78,23 +78,62 @@ deriving DecidableEq, Repr
 /-- enough for every count the search can reach while nothing wraps: 40 + 4 * count ≤ 65536 -/
 def SEARCH_FUEL : Nat := 16400
 
-/-- `mem_pool_create(obj_size)`, mempool.c:98-122 -/
-def create (objSize : Nat) (callocOk : Bool := true) : CreateRes :=
-  if !callocOk then .null else                                                        -- :103
-  let o := if objSize % MEM_ALIGN ≠ 0 then w64 (objSize + (MEM_ALIGN - objSize % MEM_ALIGN)) else objSize   -- :106-107
+/-- mempool.c:106-107: `obj_size` rounded up to `MEM_ALIGN` (in `size_t`) -/
+def alignUp (objSize : Nat) : Nat :=
+  if objSize % MEM_ALIGN ≠ 0 then w64 (objSize + (MEM_ALIGN - objSize % MEM_ALIGN)) else objSize
+
+/-- the rest of `mem_pool_create` for the aligned size `o` -/
+def createSized (o : Nat) : CreateRes :=
   if o = 0 then .sigfpe else
   match searchCount o SEARCH_FUEL 1 with
   | none => .fuel
-  | some count => .ok ⟨o, DEF_POOL_SIZE, w64 (count + 18446744073709551615), []⟩      -- :116-120 (`--count`)
+  | some count =>
+    let count := w64 (count + 18446744073709551615)                                   -- `--count`
+    if count = 0 then                                                                 -- `if (count == 0) {`
+      match poolSizeFromBitmapCount 1 o with                                          --   count = 1; pool_size = pool_size_from_bitmap_count(1, obj_size)
+      | some ps => .ok ⟨o, ps, 1, []⟩
+      | none => .sigfpe
+    else .ok ⟨o, DEF_POOL_SIZE, count, []⟩
 
-/-- `create_pool(mem)` after a successful `mmap` that returned `base`, mempool.c:81-95 -/
+/-- `mem_pool_create(obj_size)` (repaired: when not even one bitmap word with its 32 objects fits into `DEF_POOL_SIZE`
+the pool gets one word per block and blocks of exactly the size that needs) -/
+def create (objSize : Nat) (callocOk : Bool := true) : CreateRes :=
+  if !callocOk then .null else createSized (alignUp objSize)
+
+/-- `create_pool(mem)` after a successful `mmap` that returned `base` (repaired: the data area is padded by the OFFSET inside
+the block, `(size_t)(ptr - (unsigned char *)pool) % mem->obj_size`, which is what `pool_size_from_bitmap_count` budgets) -/
 def createPool (p : Pool) (id base : Nat) : Block :=
-  let objFree := w64 (w64 (p.bitmapCount * 4) * 8)                                    -- :82
-  let ptr := base + HDR + 4 * p.bitmapCount                                           -- :84
-  let ptr := if ptr % p.objSize ≠ 0 then ptr + p.objSize - ptr % p.objSize else ptr   -- :86-89
-  { id := id, base := base, dataOff := ptr - base,                                    -- :91
-    limitOff := ptr - base + objFree * p.objSize - 1,                                 -- :92
-    bitmap := List.replicate p.bitmapCount 0, objFree := objFree }                    -- :94
+  let objFree := w64 (w64 (p.bitmapCount * 4) * 8)
+  let off := HDR + 4 * p.bitmapCount                                                  -- ptr - (unsigned char *)pool
+  let off := if off % p.objSize ≠ 0 then off + p.objSize - off % p.objSize else off
+  { id := id, base := base, dataOff := off,
+    limitOff := off + objFree * p.objSize - 1,
+    bitmap := List.replicate p.bitmapCount 0, objFree := objFree }
+
+/-! #### the code before the repair (`fixes/C19-mempool-latent.patch`): only the witness theorems speak about these -/
+
+/-- `mem_pool_create` before the repair: `bitmap_count` may come out as 0 -/
+def createOld (objSize : Nat) (callocOk : Bool := true) : CreateRes :=
+  if !callocOk then .null else
+  let o := if objSize % MEM_ALIGN ≠ 0 then w64 (objSize + (MEM_ALIGN - objSize % MEM_ALIGN)) else objSize
+  if o = 0 then .sigfpe else
+  match searchCount o SEARCH_FUEL 1 with
+  | none => .fuel
+  | some count => .ok ⟨o, DEF_POOL_SIZE, w64 (count + 18446744073709551615), []⟩
+
+/-- `create_pool` before the repair: padding by the ABSOLUTE address `((uintptr_t)ptr) % mem->obj_size` -/
+def createPoolOld (p : Pool) (id base : Nat) : Block :=
+  let objFree := w64 (w64 (p.bitmapCount * 4) * 8)
+  let ptr := base + HDR + 4 * p.bitmapCount
+  let ptr := if ptr % p.objSize ≠ 0 then ptr + p.objSize - ptr % p.objSize else ptr
+  { id := id, base := base, dataOff := ptr - base,
+    limitOff := ptr - base + objFree * p.objSize - 1,
+    bitmap := List.replicate p.bitmapCount 0, objFree := objFree }
+
+/-- `1 << j` in type `int` (before the repair, mempool.c:212,214): defined only if `2^j` is representable (C11 6.5.7p4) -/
+def shiftIntOld (j : Nat) : Option Word := if 2 ^ j ≤ 2147483647 then some (BitVec.twoPow 32 j) else none
+/-- `1U << j` (repaired): defined for every `j < 32` -/
+def shiftUnsigned (j : Nat) : Option Word := if j < 32 then some (BitVec.twoPow 32 j) else none
 
 /-- `for (i = 0; i < mem->bitmap_count; ++i) if (it->bitmap[i] < UINT_MAX) break;` (160-163); `none`: `i == bitmap_count` -/
 def scanWords : List Word → Option Nat
@@ -200,7 +239,7 @@ def free (p : Pool) (bid off : Nat) : Except FreeErr Pool :=
     let idx := idx / p.objSize                                                        -- :207
     let i := idx / 32
     let j := idx % 32
-    if (b.bitmap.getD i 0).getLsbD j = false then .error .notAllocated else
+    if (b.bitmap.getD i 0).getLsbD j = false then .error .notAllocated else                -- :212 `& (1U << j)`
     .ok { p with blocks := pre ++ { b with bitmap := clearBit b.bitmap i j, objFree := w64 (b.objFree + 1) } :: post }
 
 /-- `mem_pool_destroy`: the blocks in the order they are unmapped (each with `mem->pool_size` bytes) -/
